@@ -1085,6 +1085,30 @@ impl<'r> ContainerGen<'r> {
         for _ in 0..self.rng.below(3) {
             out.push(self.body_with(&mut qph, &mut tph));
         }
+        // Placeholders can also sit inside calibration definitions (only through the API): plant a
+        // placeholder - one the body also uses, or a fresh one - into the body of some
+        // DEFCAL / DEFCAL MEASURE items.  Placeholder resolution rewrites body instructions only,
+        // so this is where a cache that is "remapped" instead of rebuilt goes wrong.
+        if self.cfg.placeholders {
+            for item in out.iter_mut() {
+                if !matches!(item.kind, Kind::Defcal | Kind::DefcalMeasure) || !self.rng.chance(1, 4) {
+                    continue;
+                }
+                let (ph, label) = if !qph.is_empty() && self.rng.chance(2, 3) {
+                    let i = self.rng.below(qph.len());
+                    (qph[i].clone(), format!("{{q{i}}}"))
+                } else {
+                    (QubitPlaceholder::default(), "{fresh-placeholder}".to_string())
+                };
+                let planted = Instruction::Fence(Fence { qubits: vec![Qubit::Placeholder(ph)] });
+                match &mut item.instr {
+                    Instruction::CalibrationDefinition(c) => c.instructions.push(planted),
+                    Instruction::MeasureCalibrationDefinition(c) => c.instructions.push(planted),
+                    _ => {}
+                }
+                item.desc.push_str(&format!("; FENCE {label}"));
+            }
+        }
         out
     }
 
